@@ -4,6 +4,7 @@ Abstract view of a queue q:  bag(q) = cnt(q._queue, .) : Event -> multiplicity; 
 QINV(q) = Heap(q._queue) and every stored timestamp equals the event's own timestamp.  Every method's postcondition is
 over the whole bag, so any interleaving of calls is covered by induction on the call sequence."""
 import z3
+from pyvc.vtypes import FA
 from pyvc.contracts_api import REG, C, RaiseSpec, LoopSpec
 from pyvc.dsl import And, Or, Not, Implies, If, Eq, IsNone, AllIdx, AnyIdx
 from pyvc.vtypes import Real, Int, Bool, Id, Ref, Opt, Seq, Tup, RefSort
@@ -37,7 +38,7 @@ def qinv(s, q):
     v = qv(q)
     i = z3.Int("qi!inv")
     return And(H.HEAP(v.arrs[0], v.arrs[1], v.len, P(s)), v.len >= 0,
-               z3.ForAll([i], z3.Implies(z3.And(i >= 0, i < v.len),
+               FA([i], z3.Implies(z3.And(i >= 0, i < v.len),
                                          z3.And(z3.Select(v.arrs[0], i) == z3.Select(TSA(s), z3.Select(v.arrs[1], i)),
                                                 z3.Select(v.arrs[1], i) != 0, s.alloc_ref(z3.Select(v.arrs[1], i)))),
                          patterns=[z3.Select(v.arrs[1], i)]))
@@ -50,7 +51,7 @@ def lt_ev(s, e1, e2):
 
 def bag_same_except(s_old, q_old, s_new, q_new, e, delta):
     x = z3.Const("bx!q", RefSort)
-    return z3.ForAll([x], bag(q_new, x) == bag(q_old, x) + z3.If(x == e, delta, 0), patterns=[bag(q_new, x), bag(q_old, x)])
+    return FA([x], bag(q_new, x) == bag(q_old, x) + z3.If(x == e, delta, 0), patterns=[bag(q_new, x), bag(q_old, x)])
 
 
 # ---------------------------------------------------------------------------- events
@@ -115,19 +116,19 @@ REG.contract(
 def _all_q(q, f):
     v = qv(q)
     i = z3.Int("qi!all")
-    return z3.ForAll([i], z3.Implies(z3.And(i >= 0, i < v.len), f(z3.Select(v.arrs[1], i))), patterns=[z3.Select(v.arrs[1], i)])
+    return FA([i], z3.Implies(z3.And(i >= 0, i < v.len), f(z3.Select(v.arrs[1], i))), patterns=[z3.Select(v.arrs[1], i)])
 
 
 def _all_seq(seq, f):
     v = seq.v
     i = z3.Int("si!all")
-    return z3.ForAll([i], z3.Implies(z3.And(i >= 0, i < v.len), f(z3.Select(v.arrs[0], i))), patterns=[z3.Select(v.arrs[0], i)])
+    return FA([i], z3.Implies(z3.And(i >= 0, i < v.len), f(z3.Select(v.arrs[0], i))), patterns=[z3.Select(v.arrs[0], i)])
 
 
 def _sorted(s, seq):
     v = seq.v
     i, j = z3.Int("si!a"), z3.Int("si!b")
-    return z3.ForAll([i, j], z3.Implies(z3.And(i >= 0, i < j, j < v.len),
+    return FA([i, j], z3.Implies(z3.And(i >= 0, i < j, j < v.len),
                                         z3.Not(lt_ev(s, z3.Select(v.arrs[0], j), z3.Select(v.arrs[0], i)))),
                      patterns=[z3.MultiPattern(z3.Select(v.arrs[0], i), z3.Select(v.arrs[0], j))])
 
@@ -142,7 +143,7 @@ def _gce_post(old, new, ret):
     return [
         ("qinv", qinv(new, new.self)),
         ("timestep", new.self._timestep == t),
-        ("bag_split", z3.ForAll([x], H.cnt(ret.v, x) + bag(new.self, x) == bag(old.self, x),
+        ("bag_split", FA([x], H.cnt(ret.v, x) + bag(new.self, x) == bag(old.self, x),
                                 patterns=[bag(new.self, x), H.cnt(ret.v, x), bag(old.self, x)])),
         ("returned_are_due", _all_seq(ret, lambda e: z3.Select(TSA(old), e) <= t)),
         ("remaining_are_later", _all_q(new.self, lambda e: z3.Select(TSA(old), e) > t)),
@@ -158,7 +159,7 @@ def _gce_loop_inv(s):
     return [
         ("qinv", qinv(s, s.self)),
         ("timestep", s.self._timestep == s.timestep),
-        ("bag_split", z3.ForAll([x], H.cnt(cur.v, x) + bag(s.self, x) == z3.Select(q0, x), patterns=[bag(s.self, x)])),
+        ("bag_split", FA([x], H.cnt(cur.v, x) + bag(s.self, x) == z3.Select(q0, x), patterns=[bag(s.self, x)])),
         ("len", cur.len + s.self._queue.len == s.len0),
         ("cur_nonneg", cur.len >= 0),
         ("collected_are_due", _all_seq(cur, lambda e: z3.Select(TSA(s), e) <= s.timestep)),
@@ -207,7 +208,7 @@ def _add_events_inv(s):
     return [
         ("qinv", qinv(s, s.self)),
         ("len", s.self._queue.len == s.len0 + s._k),
-        ("bag_is_entry_bag_plus_prefix", z3.ForAll([x], bag(s.self, x) == z3.Select(s.q0, x) + H.CNT(ev.v.arrs[0], s._k, x),
+        ("bag_is_entry_bag_plus_prefix", FA([x], bag(s.self, x) == z3.Select(s.q0, x) + H.CNT(ev.v.arrs[0], s._k, x),
                                                    patterns=[bag(s.self, x)])),
     ]
 
@@ -219,7 +220,7 @@ REG.contract(
     ensures=[C("C11.add_many", lambda old, new, ret: [
         ("qinv", qinv(new, new.self)),
         ("len", new.self._queue.len == old.self._queue.len + old.events.len),
-        ("bag", z3.ForAll([z3.Const("bx!am", RefSort)],
+        ("bag", FA([z3.Const("bx!am", RefSort)],
                           bag(new.self, z3.Const("bx!am", RefSort)) == bag(old.self, z3.Const("bx!am", RefSort))
                           + H.cnt(old.events.v, z3.Const("bx!am", RefSort)), patterns=[bag(new.self, z3.Const("bx!am", RefSort))])),
     ])],
@@ -233,7 +234,7 @@ REG.contract(
     ensures=[C("C11.init", lambda old, new, ret: [
         ("qinv", qinv(new, new.self)), ("timestep", new.self._timestep == 0),
         ("len", new.self._queue.len == If(old.events.isnone, 0, old.events.val.len)),
-        ("bag", z3.ForAll([z3.Const("bx!in", RefSort)], bag(new.self, z3.Const("bx!in", RefSort)) ==
+        ("bag", FA([z3.Const("bx!in", RefSort)], bag(new.self, z3.Const("bx!in", RefSort)) ==
                           If(old.events.isnone, 0, H.cnt(old.events.val.v, z3.Const("bx!in", RefSort))),
                           patterns=[bag(new.self, z3.Const("bx!in", RefSort))])),
     ])])
